@@ -19,7 +19,8 @@ RULE = ('plain keys: secret from boundary classes (small, near n, leading zero b
         'secret/chain/depth/fingerprint/child number arbitrary (HDKey(key=..) or one derivation step), every (network, witness '
         'type, multisig, private|public) combination of the pinned table, exported with wif()/wif_private()/wif_public() '
         '(also with explicit witness_type/multisig arguments), imported through HDKey(..) and HDKey.from_wif(..) with and '
-        'without hints; get_key_format on WIF, extended keys and BIP38-shaped strings. Non-trivial = non-bitcoin network or '
+        'without hints; get_key_format on WIF, extended keys and BIP38-shaped strings; BIP38 export (compared with '
+        'ref/bip38) -> Key(bip38, password=) import for secrets biased to a last byte 01/00. Non-trivial = non-bitcoin network or '
         'witness type other than segwit (library default) or multisig or leading-zero secret or depth > 0 or uncompressed; '
         'distinct by (key, metadata, configuration, import specs).')
 ASSUMPTIONS = ['ref/networks_pinned.json holds the intended prefix of every network (snapshot of the baseline, cross-checked '
@@ -487,6 +488,42 @@ def check_bip38fmt(ctx, case):
         raise Discrepancy('detect.bip38', 'get_key_format(%s) = %r (BIP38 = encrypted private key)' % (s, kf), case)
 
 
+def check_bip38rt(ctx, case):
+    """BIP38 export -> import through Key: the reference-built encrypted string (and the library's own) must import
+    back to the same secret, compression flag and public point. case: secret (hex), compressed, network, password"""
+    from ref import bip38, ec, address as A
+    K = _lib()
+    sec = int(case['secret'], 16)
+    comp, net, pw = case['compressed'], case['network'], case['password']
+    prefix = bytes.fromhex(A.NETWORKS[net]['prefix_address'])
+    want_pub = ec.ser_compressed(ec.pubkey(sec)) if comp else ec.ser_uncompressed(ec.pubkey(sec))
+    ref_enc = bip38.encrypt_nonec(sec, comp, pw, prefix)
+    encs = [('reference', ref_enc)]
+    try:
+        lib_enc = K.Key(sec, network=net, compressed=comp).encrypt(pw)
+        if lib_enc != ref_enc:
+            raise Discrepancy('bip38rt.export', 'Key(%x, compressed=%s, network=%s).encrypt(%r) = %s, BIP38 gives %s' %
+                              (sec, comp, net, pw, lib_enc, ref_enc), case)
+    except Discrepancy:
+        raise
+    except Exception as e:
+        raise Discrepancy('bip38rt.export.raises', 'encrypt raised %r' % e, case)
+    for name, enc in encs:
+        try:
+            k = K.Key(enc, password=pw, network=net)
+        except Exception as e:
+            raise Discrepancy('bip38rt.import.raises', 'Key(%s [%s], password=%r, network=%s) raised %r (secret %x, '
+                              'compressed=%s)' % (enc, name, pw, net, e, sec, comp), case)
+        got = {'secret': k.secret, 'compressed': k.compressed, 'public': k.public_byte, 'is_private': k.is_private,
+               'private_byte': k.private_byte}
+        want = {'secret': sec, 'compressed': comp, 'public': want_pub, 'is_private': True,
+                'private_byte': sec.to_bytes(32, 'big')}
+        bad = [f for f in want if got[f] != want[f]]
+        if bad:
+            raise Discrepancy('bip38rt.import:' + ','.join(bad), 'Key(%s, password=%r, network=%s): %s' % (
+                enc, pw, net, '; '.join('%s = %r, exported key had %r' % (f, got[f], want[f]) for f in bad)), case)
+
+
 def check_history(ctx, case):
     """Exports must describe the key's *current* state whatever was exported before (caches): a sequence of
     exports and documented mutations (network_change) on one object, then every export is compared with the
@@ -563,7 +600,8 @@ def check_history(ctx, case):
                                   'network %s wants version %s' % (v.hex(), xk.secret == sec, cur, ver.hex()), case)
 
 
-DISPATCH = {'key': check_key, 'hd': check_hd, 'bip38fmt': check_bip38fmt, 'history': check_history}
+DISPATCH = {'key': check_key, 'hd': check_hd, 'bip38fmt': check_bip38fmt, 'history': check_history,
+            'bip38rt': check_bip38rt}
 
 
 def replay(ctx, case):
@@ -827,5 +865,22 @@ def run(ctx):
         ctx.klass('bip38fmt')
         check_bip38fmt(ctx, case)
     ctx.run_given('bip38fmt', bip38_strategy(ctx), prop_b38, ctx.scale(20, 300))
+
+    # BIP38 export -> import (two scrypt runs per case: few cases, biased to the secrets that flag bytes can hit)
+    n = _gen.N
+    flagged = hst.one_of(
+        hst.tuples(hst.integers(1, (n >> 8) - 1), hst.sampled_from([0x01, 0x01, 0x00])).map(lambda t: t[0] << 8 | t[1]),
+        hst.sampled_from([1, 0x0101, 0x01 << 248 | 0x01, n - 0x40]),        # n - 0x40 ends in 0x01
+        hst.integers(1, (1 << 240) - 1).map(lambda v: v << 8 | 1), _gen.secrets())
+    b38rt = hst.fixed_dictionaries({'kind': hst.just('bip38rt'), 'secret': flagged.map(lambda v: '%064x' % v),
+                                    'compressed': hst.sampled_from([True, True, False]),
+                                    'network': hst.sampled_from(['bitcoin', 'bitcoin', 'testnet', 'litecoin', 'dogecoin']),
+                                    'password': hst.sampled_from(['pw', 'TestingOneTwoThree', 'Satoshi'])})
+
+    def prop_b38rt(case):
+        ctx.nt(('bip38rt', case['secret'], case['compressed'], case['network']))
+        ctx.klass('bip38rt' + ('.secret_ends_01' if case['secret'].endswith('01') else ''))
+        check_bip38rt(ctx, case)
+    ctx.run_given('bip38rt', b38rt, prop_b38rt, ctx.scale(5, 200))
     ctx.run_given('key', key_strategy(ctx), prop_key(ctx), ctx.scale(200, 2400))
     ctx.run_given('hd', hd_strategy(ctx), prop_hd(ctx), ctx.scale(250, 3000))
